@@ -112,6 +112,7 @@ type TransRun struct {
 	t0       time.Time
 	opened   int64
 	gated    bool
+	brokenW  []*Wire
 }
 
 var burstID int64
@@ -351,6 +352,22 @@ func (r *TransRun) startCall(k int, addr string) {
 	})
 }
 
+// countReg: has the current call of caller k been registered (api.reg seen for it)?
+func (r *TransRun) countReg(k, cur int) bool {
+	r.Run.mu.Lock()
+	defer r.Run.mu.Unlock()
+	n := 0
+	for _, e := range r.Run.evs {
+		if e.Ev == "api.reg" && e.C == k {
+			n++
+		}
+		if e.Ev == "api.ret" && e.C == k && n > 0 {
+			n--
+		}
+	}
+	return n > 0
+}
+
 func (r *TransRun) lastConnOf(k int) int {
 	r.Run.mu.Lock()
 	defer r.Run.mu.Unlock()
@@ -474,10 +491,17 @@ func (r *TransRun) exec(st TStep) {
 		s.wires = nil
 		r.mu2.Unlock()
 		r.add(&Ev{Ev: "env.kill", A: r.addrIdxByName(st.Addr), Seq: -1, Sent: -1})
+		// the server process dies: every connection to it ends; calls in flight fail at once
 		for _, w := range ws {
 			w.Cut(0, 0)
 		}
-		time.Sleep(2 * time.Millisecond) // let the readers see the end of their streams
+		for k, c := range r.callers {
+			if c.running && c.addr == st.Addr && r.countReg(k, c.cur) {
+				k := k
+				r.await("failure of the call in flight", func() bool { return r.finished(k) })
+			}
+		}
+		time.Sleep(time.Millisecond) // idle pooled connections: let their readers see the end of the stream
 	case "Restart":
 		r.mu2.Lock()
 		r.servers[st.Addr].up = true
@@ -487,6 +511,11 @@ func (r *TransRun) exec(st TStep) {
 }
 
 func (r *TransRun) finalize() {
+	r.mu2.Lock()
+	for _, w := range r.brokenW {
+		w.Cut(0, 0)
+	}
+	r.mu2.Unlock()
 	if r.gotGate != nil {
 		r.gotGate.openAll(0)
 		for _, s := range r.servers {
